@@ -1150,17 +1150,19 @@ class _Tree(_ArithmeticMixin, _Base):
         ):
             self._p_changed = True
 
-        # fix up the node key, but not for the 0'th one.
-        if index > 0 and child.size and compare(key, data[index].key) == 0:
-            self._p_changed = True
-            data[index].key = child.minKey()
-
         if removed_first_bucket:
             if index:
                 data[index - 1].child._deleteNextBucket()
                 removed_first_bucket = False  # clear flag
             else:
                 self._firstbucket = child._firstbucket
+
+        # fix up the node key, but not for the 0'th one.  Done after the
+        # bucket chain has been repaired: the comparison may raise, and a
+        # stale node key is harmless while a stale chain is not.
+        if index > 0 and child.size and compare(key, data[index].key) == 0:
+            self._p_changed = True
+            data[index].key = child.minKey()
 
         if not child.size:
             if type(child) is self._bucket_type:
